@@ -1,6 +1,8 @@
 package rules
 
 import (
+	ssa "xvc/xssa"
+
 	"sort"
 	"strings"
 
@@ -52,6 +54,24 @@ func c09(c *q.Ctx) {
 		c.Effect(vt, q.Eff{Spec: "Limits.TotalGas", Arg: 0, Glob: "*", Req: []q.Cond{{Canon: "(#i < len(state.(*State).GetReservedContractRequests(p0,p1.ContractRequests,false)#0))", Sense: false}}, Why: "every non-reserved request is charged against the gas the transaction pays", Rule: "K2"})
 		// success exits: whitelist, no-request, or full re-execution
 		c.Gate(vt, "xmodel::Equal", q.ToSuccess(), q.Opt{Unless: alt})
+	}
+	// "rejected if it pays for less than the execution uses": the one comparison of used against declared resources
+	// answers `not exceeded` only after each of the four resource types was compared - a limit of zero is a limit
+	if ex := c.Fn("kernel/contract::(Limits).Exceed"); ex != nil {
+		notTrue := q.Target{Name: "an exit that may answer `not exceeded`", Instr: func(i ssa.Instruction) bool {
+			r, ok := i.(*ssa.Return)
+			if !ok || len(r.Results) != 1 {
+				return false
+			}
+			b, isConst := q.ConstBool(q.Strip(r.Results[0]))
+			return !(isConst && b)
+		}}
+		for _, f := range []string{"Cpu", "Memory", "Disk"} {
+			cmp := q.Cond{Canon: "(p1." + f + " < p0." + f + ")", Sense: false}
+			c.OnlyUnder(ex, notTrue, []q.Cond{cmp}, "every resource type is compared with its limit")
+			c.EdgeReturns(ex, q.Cond{Canon: cmp.Canon, Sense: true}, 0, "true", "use above the limit answers `exceeded`")
+		}
+		c.ReturnIs(ex, 0, []string{"true", "(p1.XFee < p0.XFee)"}, "the last type's comparison is the verdict itself")
 	}
 	// the declared reads are compared with the current versions once more under the key locks, at commit
 	commitVersionChecks(c)
